@@ -6,7 +6,7 @@
 (* <<property id, predicate name>>.                                         *)
 (***************************************************************************)
 EXTENDS Naturals, Integers, Sequences, FiniteSets, SequencesExt,
-        FiniteSetsExt, Functions, TLC, Text, Vlq, SMap, Sem, Attr, Compose, Rope, EncM, SplitM, ReplaceM, ConcatM, HashM, LeafM, CombineM
+        FiniteSetsExt, Functions, TLC, Text, Vlq, SMap, Sem, Attr, Compose, Rope, ReplReq, EncM, SplitM, ReplaceM, ConcatM, HashM, LeafM, CombineM
 
 NREG == 16
 EmptyHeap == [i \in 0..(NREG - 1) |-> Nil]
@@ -153,58 +153,8 @@ ExpectedConcatLines(childMaps, texts) ==
         LET c == {i \in 1..Len(all) : all[i][1] = ln /\ all[i][2][1]}
         IN IF c = {} THEN LineOnly(Unmapped) ELSE all[Min(c)][2]]
 
-(* C06 for ReplaceSource, with the OBSERVED inner stream as the definition  *)
-(* of "inner segment".  ic / oc range over chunks [x, gl, gc, a].           *)
-ByteIndex(chunks) ==    \* per byte: <<chunk number, offset inside the chunk>>
-  Concat([j \in 1..Len(chunks) |-> [i \in 1..Len(chunks[j].x) |-> <<j, i - 1>>]])
-
-ContentMatches(ct, line, col, expected) ==
-  LET ls == Lines(ct)
-  IN /\ line >= 1 /\ line <= Len(ls)
-     /\ col + Len(expected) <= Len(ls[line])
-     /\ SubSeq(ls[line], col + 1, col + Len(expected)) = expected
-
-(* the column an output piece may carry when it starts d bytes into ic      *)
-ColOK(col, ic, d) ==
-  LET col0 == ic.a.c
-  IN IF d = 0 \/ ~ic.a.hc THEN col = col0
-     ELSE IF ContentMatches(ic.a.ct, ic.a.l, col0, Take(ic.x, d)) THEN col = col0 + d
-     ELSE col >= col0 /\ col <= col0 + d
-
-ReplaceKeepsAttribution(innerChunks, outChunks, repls) ==
-  LET innerText == StreamText(innerChunks)
-      n == Len(innerText)
-      prov == SpliceProv(n, repls)
-      ii == ByteIndex(innerChunks)
-      oi == ByteIndex(outChunks)
-      byteOK(b) ==
-        LET a == outChunks[oi[b][1]].a
-            p == prov[b]
-        IN IF p.k = "in" THEN
-             LET ic == innerChunks[ii[p.j][1]]
-                 d == ii[p.j][2]
-                 p0 == prov[b - oi[b][2]]      \* first byte of the output chunk
-                 dp == IF p0.k = "in" /\ ii[p0.j][1] = ii[p.j][1] THEN ii[p0.j][2] ELSE d
-             IN /\ a.m = ic.a.m
-                /\ a.m => /\ <<a.f, a.hc, a.ct, a.l, a.hn, a.n>>
-                              = <<ic.a.f, ic.a.hc, ic.a.ct, ic.a.l, ic.a.hn, ic.a.n>>
-                          /\ ColOK(a.c, ic, dp)
-           ELSE
-             IF p.at >= n THEN ~a.m
-             ELSE
-               LET ic == innerChunks[ii[p.at + 1][1]]
-                   d == ii[p.at + 1][2]
-                   r == repls[p.r]
-                   firstLine == \A x \in 1..(p.i - 1) : r.c[x] # NL
-                   expName == IF ~firstLine THEN <<FALSE, <<>>>>
-                              ELSE IF r.n # <<>> THEN <<TRUE, r.n[1]>>
-                              ELSE <<ic.a.hn, ic.a.n>>
-               IN /\ a.m = ic.a.m
-                  /\ a.m => /\ <<a.f, a.hc, a.ct, a.l>> = <<ic.a.f, ic.a.hc, ic.a.ct, ic.a.l>>
-                            /\ ColOK(a.c, ic, d)
-                            /\ <<a.hn, a.n>> = expName
-  IN /\ Len(prov) = Len(StreamText(outChunks))
-     /\ \A b \in 1..Len(prov) : byteOK(b)
+(* the C06 requirement on a ReplaceSource lives in ReplReq (also used by    *)
+(* MC_ReplaceM)                                                             *)
 
 (* the property's domain: a file name shared between children carries the   *)
 (* same content everywhere                                                  *)
@@ -879,12 +829,16 @@ Holds(c, r, st) ==
                  /\ <<cs[i].gl, cs[i].gc>> = <<model[i].gl, model[i].gc>>
                  /\ (IF cs[i].o = <<>> THEN <<-1, 0, 0, -1>> ELSE cs[i].o) = RawOf(model[i].s)
     [] c = <<"DRIFT", "replace_stream_follows_ReplaceM">> ->
+         \* text, positions AND attribution (by value) of every emitted chunk
          LET inner == st.obs[<<r.inner, "stream", TRUE, FALSE>>]
-             mine == st.obs[<<r.r, "stream", TRUE, FALSE>>]
-             strip(evs) == LET cs == SelectSeq(evs, IsChunk)
-                           IN [i \in 1..Len(cs) |-> [x |-> ChunkText(cs[i]), gl |-> cs[i].gl, gc |-> cs[i].gc]]
-             model == ReplaceStream(strip(inner.ev), inner.end, Sorted(st.heap[r.r].repls))
-         IN model.chunks = strip(mine.ev) /\ model.end = mine.end
+             mine == StreamChunks(st.obs[<<r.r, "stream", TRUE, FALSE>>].ev)
+             model == ReplaceStream(StreamChunks(inner.ev), inner.end, Sorted(st.heap[r.r].repls))
+         IN /\ Len(model.chunks) = Len(mine)
+            /\ \A i \in 1..Len(mine) :
+                 /\ <<model.chunks[i].x, model.chunks[i].gl, model.chunks[i].gc>>
+                      = <<mine[i].x, mine[i].gl, mine[i].gc>>
+                 /\ Full(model.chunks[i].a) = Full(mine[i].a)
+            /\ model.end = st.obs[<<r.r, "stream", TRUE, FALSE>>].end
     [] c = <<"DRIFT", "concat_stream_follows_ConcatM">> ->
          LET strip(evs) == LET cs == SelectSeq(evs, IsChunk)
                            IN [i \in 1..Len(cs) |->
